@@ -1,3 +1,15 @@
 //! Safe-Rust verification hooks for this module (accessors/wrappers only; no logic).
 #![allow(unused_imports, dead_code)]
 use super::*;
+
+// ---- C13/C14 (np_nts_h): name the writer trait and the field type from outside, and expose the
+// private zero-filling helper (thin wrapper) so that a harness can compare it with its model.
+pub use crate::io::NonBlockingWrite;
+pub use super::ExtensionField as ExtField;
+pub fn write_zeros_hook<W: NonBlockingWrite>(w: W, n: usize) -> std::io::Result<()> {
+    ExtensionField::write_zeros(w, n)
+}
+pub use super::ExtensionHeaderVersion as EhVersion;
+pub fn ef_serialize_hook(ef: &ExtensionField<'_>, w: &mut Cursor<&mut [u8]>, minimum_size: u16, version: ExtensionHeaderVersion) -> std::io::Result<()> {
+    ef.serialize(w, minimum_size, version)
+}
